@@ -123,7 +123,7 @@ func TableFacts() []string {
 		if unicode.ToLower(l) != l {
 			bad = append(bad, fmt.Sprintf("ToLower is not idempotent on U+%04X", c))
 		}
-		if l == '"' || l == '(' || l == ')' || (l == 0 && c != 0) {
+		if l != c && (l == '"' || l == '(' || l == ')' || l == 0) {
 			bad = append(bad, fmt.Sprintf("ToLower(U+%04X) is U+%04X", c, l))
 		}
 	}
